@@ -309,6 +309,28 @@ def main(chk):
                 {"program": sprogs[k], "fresh": sprogs[k + 1], "impl": {x: a.get(x) for x in ("kind", "repr", "errk", "errmsg")},
                  "impl_fresh": {x: b.get(x) for x in ("kind", "repr", "errk", "errmsg")}}, klass="C11:sequence-reuse")
             break
+    # 5. elements of any kind: a slice selects positions, whatever the elements are (nil, nested arrays, strs, objects)
+    mixed = ["1", "nil", '"s"', "nil", "[2, nil]", "{a: 1}", "nil"]
+    mprogs, mwant = [], []
+    mvals = [None, 0, 1, 2, 3, -1, -2, -3, 5, 7, -8]
+    for a in mvals:
+        for b in mvals:
+            for c in (None, 1, 2, -1, -2, 3):
+                want = oracle(mixed, ("rng", a, b, c))
+                mprogs.append("[%s][%s]" % (", ".join(mixed), rsrc(a, b, c)[1:-1]))
+                mwant.append("[" + ", ".join(w.replace("{a: 1}", '{"a": 1}') for w in want) + "]")
+    for i in range(-9, 9):
+        w = oracle(mixed, ("idx", i))
+        mprogs.append("[%s][%d]" % (", ".join(mixed), i) if i >= 0 else "[%s][(%d)]" % (", ".join(mixed), i))
+        mwant.append(w if w == "nil" else w[0].replace("{a: 1}", '{"a": 1}'))
+    mouts = harness("eval", [{"src": p_} for p_ in mprogs], shards=NCPU)
+    for prog, want, r in zip(mprogs, mwant, mouts):
+        chk.count(("mixed-elements", prog), True)
+        if not (r["kind"] == "value" and r.get("repr") == want):
+            chk.fail("indexing / slicing an array of mixed elements: `%s` gives %s, expected %s" % (prog, r.get("repr") or (r.get("errk"), r.get("errmsg")), want),
+                     {"program": prog, "expected": want, "impl": {k: r.get(k) for k in ("kind", "repr", "errk", "errmsg")}}, klass="C11:mixed-elements")
+            break
+    hist["mixed-elements"] = len(mprogs)
     hist["sequence-reuse"] = len(souts) // 2
     hist["range-reuse"] = len(reuse)
     failing = [f for f in failing if f[0] != -1]
